@@ -26,6 +26,12 @@ func genRaceCase(r *simrt.Rand, c *Case, tier string) *Case {
 	g.MaxCom = 4
 	g.MaxTxn = 25
 	g.MaxSpan = 300
+	if r.P(0.15) {
+		// large journals: batching and buffer reuse only show above some size
+		g.MaxTxn = 700
+		g.MaxSpan = 700
+		g.PAccrual = 0
+	}
 	c.Gen = &g
 	c.Sub = "race"
 	c.J = Gen(r, g)
